@@ -34,6 +34,14 @@ def instance_keeps_order(ctx):
     for local, field in (("action_group", "this->action_group_"), ("detector_groups", "this->detector_groups_")):
         pushes = [i for i in rg.calls("emplace_back", "push_back", "insert", "emplace", "push_front", "emplace_front") if rg.text(rg.nodes[i].get("recv", -1)) == local]
         if not pushes:
+            # filled by an order-preserving algorithm: std::transform / std::copy over [field.begin(), field.end()) into back_inserter(local)
+            alg = [i for i in rg.calls() if (rg.nodes[i].get("callee") or "").split("(")[0].endswith(("std::transform", "std::copy", "std::move")) and len(rg.nodes[i].get("args", [])) >= 3]
+            okalg = [i for i in alg if re.match(r"^%s\.c?begin\(\)$" % re.escape(field), rg.text(rg.nodes[i]["args"][0])) and
+                     re.match(r"^%s\.c?end\(\)$" % re.escape(field), rg.text(rg.nodes[i]["args"][1])) and
+                     re.match(r"^std::back_inserter\(%s\)$" % re.escape(local), rg.text(rg.nodes[i]["args"][2]))]
+            if len(okalg) == 1:
+                ctx.ok("instance-keeps-order:" + local, "loop-shape + per-iteration exactly-once", rg.loc(okalg[0]), "filled by %s over %s into back_inserter(%s): one element per element, in order" % (rg.nodes[okalg[0]].get("cname"), field, local))
+                continue
             ctx.broken("instance-keeps-order:" + local, "anchor", rg.loc(), "no insertion into the local vector '%s' (renamed?)" % local)
             continue
         lps = [l for l in loops(rg) if (loop_walk(rg, l) or {}).get("container") == field]
